@@ -32,6 +32,7 @@ func (v *TagCase) String() string {
 
 type TmplData struct {
 	*shoot.TmplDataBase
+	importAlias       map[string]string //import path -> local name, for the imports the type's file renames
 	Imports           string
 	AllList           []string
 	AllocMap          map[string][]Alloc
